@@ -291,6 +291,44 @@ SIMPLE_CHAINS = ("Bourtsoulatze2019DeepJSCC", "DeepJSCCFeedback", "Tung2022DeepJ
 SIGMOID_DECODERS = ("Bourtsoulatze2019DeepJSCCDecoder", "DeepJSCCFeedbackDecoder")
 
 
+def _every_iteration_calls(loop: ast.For) -> bool:
+    """Every path through one iteration of `for layer in self.<list>` calls the loop variable (the layer)."""
+    tgt = loop.target
+    if isinstance(tgt, ast.Tuple) and tgt.elts:
+        tgt = tgt.elts[-1]
+    if not isinstance(tgt, ast.Name):
+        return True  # not the plain layer loop this rule is about
+    var = tgt.id
+
+    def calls(node) -> bool:
+        return any(isinstance(c, ast.Call) and isinstance(c.func, ast.Name) and c.func.id == var for c in ast.walk(node))
+
+    def may_exit(st) -> bool:
+        return any(isinstance(x, (ast.Continue, ast.Break, ast.Return)) for x in ast.walk(st))
+
+    def must(stmts) -> bool:
+        for st in stmts:
+            if isinstance(st, ast.If):
+                if must(st.body) and st.orelse and must(st.orelse):
+                    return True
+                if may_exit(st):
+                    return False
+                continue
+            if isinstance(st, (ast.For, ast.While, ast.Try, ast.With)):
+                if may_exit(st):
+                    return False
+                continue
+            if calls(st):
+                return True
+            if may_exit(st):
+                return False
+        return False
+
+    if not calls(loop):
+        return True  # the loop does not apply the layers at all (e.g. it collects them): other rules apply
+    return must(loop.body)
+
+
 def rule_conv(repo: Repo, rep: Report) -> int:
     n = 0
     files = ["bourtsoulatze2019_deepjscc.py", "tung2022_deepjscc_q.py", "kurka2020_deepjscc_feedback.py", "yilmaz2023_deepjscc_noma.py", "yilmaz2024_deepjscc_wz.py"]
@@ -385,8 +423,13 @@ def rule_conv(repo: Repo, rep: Report) -> int:
             enum = [l for l in ast.walk(fwd.node) if isinstance(l, ast.For) and isinstance(l.iter, ast.Call) and call_name(l.iter) == "enumerate" and l.iter.args and attr_chain(l.iter.args[0]) == f"self.{attr}"]
             direct = [c for c in ast.walk(fwd.node) if isinstance(c, ast.Call) and attr_chain(c.func) == f"self.{attr}"]
             rev = [c for c in ast.walk(fwd.node) if isinstance(c, ast.Call) and call_name(c) in ("reversed",) and c.args and attr_chain(c.args[0]) == f"self.{attr}"]
+            skipping = [l for l in loops + enum if not _every_iteration_calls(l)]
             if rev:
                 rep.violation("CONV", fwd, f"{cname}.forward: reversed(self.{attr})", "the layers are applied in reverse of the declared order", node=rev[0])
+                n += 1
+            elif skipping:
+                l = skipping[0]
+                rep.violation("CONV", fwd, f"{cname}.forward: for {unparse(l.target)} in {unparse(l.iter)}: a path through the body does not call the layer", "a declared layer can be skipped (continue / break / a conditional without a call on the other arm): for the inputs that take that path its parameters receive no gradient (grad is None) and the published architecture is not the one applied", node=l)
                 n += 1
             elif loops or enum or direct:
                 rep.ok("CONV", fwd, f"{cname}.forward applies self.{attr} in declared order", "for-loop over the list / direct call", node=(loops or enum or direct)[0], nontrivial=False)
